@@ -1725,6 +1725,54 @@ def boundaries(rng, n):
     return cases
 
 
+def zeros(rng):
+    """sentinel data: a SUPPLIED zero value (0, -0, 0.0, "", false, empty array / object) is a supplied
+    value — it satisfies "required", it is checked against range and options, and it is not replaced
+    by the default"""
+    cases = []
+    zero_lits = {"bool": ["false", "0"], "string": [""], "float32": ["0", "0.0", "-0", "0e5"], "float64": ["0", "0.0", "-0", "0e5"]}
+    for kind in KINDS:
+        lits = zero_lits.get(kind, ["0", "-0", "00"] if kind in INT_KINDS else ["0", "00"])
+        for o in (None, O(opt=True), O(**{"def": "3" if kind != "bool" else "true"}), O(opt=True, **{"def": "3" if kind != "bool" else "true"}),
+                  O(range=R("[1:5]")), O(range=R("(0:5]")), O(range=R("[0:5]")), O(range=R("[-1:0)")),
+                  O(options=["1", "2"] if kind not in ("bool", "string") else ["true", "x"]),
+                  O(options=["0", "1"] if kind not in ("bool", "string") else ["false", ""]), O(opt=True, dep="b"), O(opt=True, dep="b", neg=True)):
+            if o and o["range"] and not is_num(kind):
+                continue
+            for mode in ("json", "form", "path", "header", "key", "httpx-form", "httpx-json"):
+                for wrap in ((lambda t: t), Ptr):
+                    lit = rng.choice(lits)
+                    if mode in STRINGY:
+                        v = ds(lit)
+                    elif kind == "bool":
+                        if lit != "false":
+                            continue
+                        v = {"b": False}
+                    elif kind == "string":
+                        v = ds(lit)
+                    else:
+                        if not Gen.json_ok(lit):
+                            lit = "0"
+                        v = dn(lit)
+                    if rng.random() < 0.55:
+                        continue
+                    fa = F("a", wrap(P(kind)), copy.deepcopy(o))
+                    fb = F("b", P("int"), O(opt=True))
+                    pairs = [("a", v)] + ([("b", ds("1") if mode in STRINGY else dn("1"))] if rng.random() < 0.5 else [])
+                    cases.append(finish({"mode": mode, "type": St(fa, fb), "doc": dobj(pairs), "intent": "zero-value"}))
+    # empty composites are supplied, too
+    i = P("int")
+    for mode in ("json", "key"):
+        for t, v in ((Sl(i), {"a": []}), (Mp(i), dobj([])), (St(F("x", i, O(opt=True))), dobj([])), (St(F("x", i)), dobj([])),
+                     (Ptr(St(F("x", i, O(**{"def": "2"})))), dobj([])), (Sl(St(F("x", i))), {"a": [dobj([])]}), (Sl(Sl(i)), {"a": [{"a": []}]})):
+            for o in (None, O(opt=True), O(opt=True, dep="b"), O(opt=True, dep="b", neg=True)):
+                for b_on in (False, True):
+                    pairs = [("a", copy.deepcopy(v))] + ([("b", dn("1"))] if b_on else [])
+                    cases.append(finish({"mode": mode, "type": St(F("a", copy.deepcopy(t), copy.deepcopy(o)), F("b", i, O(opt=True))),
+                                         "doc": dobj(pairs), "intent": "zero-value"}))
+    return cases
+
+
 def frontends(rng, n):
     """the same documents through the other text / map front ends of mapping"""
     g = Gen(rng, "quick")
@@ -1974,6 +2022,7 @@ class C08(Property):
             cases += systematic(rng)
             cases += dotted(rng)
             cases += tagsyntax(rng)
+            cases += zeros(rng)
         cases += boundaries(rng, 500 if not big else 6000)
         cases += frontends(rng, 150 if not big else 1500)
         cases += broken_texts()
